@@ -390,6 +390,11 @@ func init() {
 			"crop.MakeEd25519KeyPair panics on a private key shorter than 32 bytes when no public key is given: "+ex.srcLine(c.pos))
 		return ex.externalCall(fr, st, c.fn, c.args, c.argVals, c.pos)
 	}
+	s["(*crypto/ecdh.PrivateKey).ECDH"] = func(ex *Exec, fr *Frame, st *State, c *callCtx) Val {
+		ex.oblige(fr, st, "nil", "ecdh-private-key-present", not(eq(c.args[0].L[0], "0")), c.pos, "(*ecdh.PrivateKey).ECDH on a nil key panics: "+ex.srcLine(c.pos))
+		ex.oblige(fr, st, "nil", "ecdh-remote-key-present", not(eq(c.args[1].L[0], "0")), c.pos, "(*ecdh.PrivateKey).ECDH with a nil remote key panics: "+ex.srcLine(c.pos))
+		return ex.externalCall(fr, st, c.fn, c.args, c.argVals, c.pos)
+	}
 	s["crypto/ed25519.Verify"] = func(ex *Exec, fr *Frame, st *State, c *callCtx) Val {
 		ex.oblige(fr, st, "pre", "ed25519-pubkey-size", eq(c.args[0].L[2], bvLit(32, 64)), c.pos, "ed25519.Verify panics unless len(pub)==32: "+ex.srcLine(c.pos))
 		ex.cryptoEvent(fr, st, "ed25519.Verify", c)
